@@ -529,8 +529,15 @@ class Formula:
                     "variables in front.")
 
     def _getdiff(self):
-        params = sorted(set(getparams(self.mean)), key=default_sort_key)
-        return [sympy.diff(self.mean, p).doit() for p in params]
+        mean = self.mean
+        # The coefficients come in the order of their terms, not in the order
+        # of their names ('b10' sorts before 'b2'), so that the columns of the
+        # design follow the terms; any other parameters come after them.
+        position = {beta: i for i, beta in enumerate(self._betas)}
+        params = sorted(set(getparams(mean)),
+                        key=lambda p: ((0, position[p]) if p in position
+                                       else (1, default_sort_key(p))))
+        return [sympy.diff(mean, p).doit() for p in params]
     design_expr = property(_getdiff)
 
     def _getdtype(self):
